@@ -2,6 +2,7 @@ package keeper
 
 import (
 	"fmt"
+	"github.com/pokt-network/pocket-core/codec"
 	"os"
 
 	sdk "github.com/pokt-network/pocket-core/types"
@@ -12,6 +13,13 @@ import (
 // InitGenesis - Init store state from genesis data
 func (k Keeper) InitGenesis(ctx sdk.Ctx, data types.GenesisState) []abci.ValidatorUpdate {
 	k.SetParams(ctx, data.Params)
+	// the protocol switches a restarted process derives from the stored upgrade record (app.go)
+	// hold for the process that initialises the chain as well
+	if upgrade := data.Params.Upgrade; upgrade.Height != 0 {
+		codec.UpgradeHeight = upgrade.Height
+		codec.OldUpgradeHeight = upgrade.OldUpgradeHeight
+		codec.UpgradeFeatureMap = codec.SliceToExistingMap(upgrade.GetFeatures(), codec.UpgradeFeatureMap)
+	}
 	// validate acl
 	if err := k.GetACL(ctx).Validate(k.GetAllParamNames(ctx)); err != nil {
 		k.Logger(ctx).Error(err.Error())
